@@ -271,6 +271,14 @@ pub fn worker<P: Prop>(tier: Tier, seed: u64, idx: usize, seed_idx: usize, cases
                     if !is_frozen {
                         let k = format!("{}:{}", v.prop, v.sig);
                         *st.foreign.entry(k.clone()).or_insert(0) += 1;
+                        // triage aid (never used by a registered command): RV_KEEP_FOREIGN=<dir> keeps the first case of
+                        // each kind as a replay file of the property the failed predicate belongs to
+                        if let (Ok(dir), false) = (std::env::var("RV_KEEP_FOREIGN"), st.foreign_examples.contains_key(&k)) {
+                            let owner = v.prop.split('|').next().unwrap_or(v.prop).to_string();
+                            let rf = ReplayFile { property: owner.clone(), expected: "hold".into(), note: format!("foreign failure seen by the {} check: {} {}", P::ID, v.sig, v.msg), case: serde_json::to_value(&case).unwrap() };
+                            let _ = std::fs::create_dir_all(&dir);
+                            let _ = std::fs::write(Path::new(&dir).join(format!("{owner}-{}-{:016x}.json", v.sig.replace('/', "_"), fnv(&body))), serde_json::to_vec_pretty(&rf).unwrap());
+                        }
                         st.foreign_examples.entry(k).or_insert_with(|| v.msg.clone());
                     }
                     return Ok(());
